@@ -36,9 +36,9 @@ def main(pid, tier, seed):
     qtraces, etraces, meta, strings = [], [], {}, []
     tid = 0
     rdirs = []
-    for k in range(10 if tier == 'quick' else 120):
+    for k in range(12 if tier == 'quick' else 120):
         d = os.path.join(work, 'r%d' % k)
-        desc = expand.tie_group_ruleset(rng, d) if k % 3 == 0 else (expand.rich_ruleset(rng, d) if k % 3 == 1 else ptq.random_float_ruleset(rng, d))
+        desc = [expand.tie_group_ruleset, expand.dyadic_prince_ruleset, expand.rich_ruleset, ptq.random_float_ruleset][k % 4](rng, d)
         rdirs.append((d, desc))
     cli_jobs = []
     for d, desc in rdirs:
